@@ -43,6 +43,9 @@ pub fn insertion_sort<T: Ord>(v: &mut [T]) {
     }
 }
 
+/// Kani stub for `std::hint::spin_loop` (the `pause` intrinsic is not supported by Kani; it has no semantics)
+pub fn noop_spin() {}
+
 // ---- abstract waker -------------------------------------------------------------------------
 // A waker is a task id (the RawWaker data word). Waking sets WOKEN[task]. In native builds the
 // vtable functions do exactly what the Kani stubs below model.
@@ -74,4 +77,18 @@ macro_rules! cover {
         #[cfg(kani)]
         kani::cover!($cond, $msg);
     };
+}
+
+/// `rep!(N, { body })` repeats `body` N times (N a literal 1..=8): harness scripts are unrolled by macro so that
+/// no harness loop needs a large global unwind bound.
+#[macro_export]
+macro_rules! rep {
+    (1, $b:block) => { $b };
+    (2, $b:block) => { $b $b };
+    (3, $b:block) => { $b $b $b };
+    (4, $b:block) => { $b $b $b $b };
+    (5, $b:block) => { $b $b $b $b $b };
+    (6, $b:block) => { $b $b $b $b $b $b };
+    (7, $b:block) => { $b $b $b $b $b $b $b };
+    (8, $b:block) => { $b $b $b $b $b $b $b $b };
 }
